@@ -38,6 +38,7 @@ package service
 
 //@ func preHash
 //@   props C07 C18
+//@   params id salt
 //@   pure
 
 // Add(id, salt): a handshake whose hash was checked at index L, with every
@@ -45,6 +46,7 @@ package service
 // recent N checks), is refused. Conversely a refusal means the hash was seen.
 //@ func (*ReplayCache).Add
 //@   props C07 C18 C19
+//@   params c id salt
 //@   atomic
 //@   ghost-at-unlock c.capHist[atlock(c.now)] := ite(atlock(c.capacity) != 0, atlock(c.capacity), atlock(c.capHist[c.now])) ; \
 //@       c.last[preHash(id, salt)] := ite(atlock(c.capacity) != 0, atlock(c.now), atlock(c.last[preHash(id, salt)])) ; \
@@ -59,6 +61,7 @@ package service
 
 //@ func (*ReplayCache).Resize
 //@   props C07 C18 C19
+//@   params c capacity
 //@   atomic
 //@   requires c != nil
 
@@ -66,6 +69,7 @@ package service
 // such a cache satisfies the representation invariant (lemma), so the invariant holds from the start.
 //@ func NewReplayCache
 //@   props C07 C18
+//@   params capacity
 //@   requires capacity <= MaxCapacity
 //@   ensures result.capacity == capacity && result.active != nil && len(result.active) == 0 && result.archive == nil
 //@   lemma[C07,empty-history-satisfies-invariant] forall p ref :: ptr(p, "*service.ReplayCache").active != nil && len(ptr(p, "*service.ReplayCache").active) == 0 \
@@ -94,12 +98,15 @@ package service
 // Logging helpers are used modularly so that their branches do not multiply the callers' paths.
 //@ func debugTCP
 //@   props C18
+//@   params l template cipherID attr
 //@   requires l != nil
 //@ func debugUDP
 //@   props C18
+//@   params l template cipherID attr
 //@   requires l != nil
 //@ func debugUDPAddr
 //@   props C18
+//@   params l template addr attr
 //@   requires l != nil && addr != nil
 
 // ---------------------------------------------------------------------------
@@ -108,6 +115,7 @@ package service
 
 //@ func remoteIP
 //@   props C18
+//@   params conn
 //@   requires conn != nil
 
 // aeadMatch(e, fb): the first chunk header in fb authenticates under the key of list element e
@@ -119,6 +127,7 @@ package service
 // snapshot authenticates the header; otherwise the first element (in snapshot order) that does.
 //@ func findEntry
 //@   props C01 C18
+//@   params firstBytes ciphers l
 //@   requires len(firstBytes) == bytesForKeyFinding && l != nil
 //@   requires forall i int :: 0 <= i && i < len(ciphers) ==> validElem(ciphers[i])
 //@   loop 1 invariant forall j int :: 0 <= j && j <= rangeindex ==> !aeadMatch(ciphers[j], firstBytes)
@@ -130,6 +139,7 @@ package service
 
 //@ func findAccessKey
 //@   props C01 C02 C06 C18
+//@   params clientReader clientIP cipherList l
 //@   requires clientReader != nil && cipherList != nil && l != nil
 //@   ensures result.4 == nil ==> validEntry(result.0) && result.1 != nil
 //@   ensures result.4 == nil ==> len(result.2) == pure("shadowsocks.(*EncryptionKey).SaltSize", result.0.CryptoKey)
@@ -152,6 +162,7 @@ package service
 
 //@ func NewShadowsocksStreamAuthenticator$1
 //@   props C01 C06 C07 C08 C18
+//@   params clientConn
 //@   requires clientConn != nil && ciphers != nil && metrics != nil && l != nil
 //@   trace[C06,authenticator-is-silent] never transport.StreamConn.Write
 //@   trace[C02,decrypts-the-reassembled-stream] each shadowsocks.NewReader satisfies $arg0 == evres("service.findAccessKey", 1) && $arg1 == evres("service.findAccessKey", 0).CryptoKey
@@ -175,22 +186,27 @@ package service
 
 //@ func NewShadowsocksStreamAuthenticator
 //@   props C18
+//@   params ciphers replayCache metrics l
 
 //@ func ensureConnectionError
 //@   props C18
+//@   params err fallbackStatus fallbackMsg
 //@   ensures err != nil ==> result != nil
 //@   ensures err == nil ==> result == nil
 
 //@ func drainErrToString
 //@   props C18
+//@   params drainErr
 
 //@ func getProxyRequest
 //@   props C18
+//@   params clientConn
 //@   requires clientConn != nil
 
 // absorbProbe reads until the client closes or the read deadline fires, then reports the probe.
 //@ func (*streamHandler).absorbProbe
 //@   props C06 C15 C18
+//@   params h clientConn connMetrics status proxyMetrics
 //@   requires validStreamHandler(h) && clientConn != nil && connMetrics != nil && proxyMetrics != nil
 //@   trace[C06,drains-once] exactly 1 io.Copy
 //@   trace[C06,drains-the-client] each io.Copy satisfies $arg1 == clientConn
@@ -201,6 +217,7 @@ package service
 
 //@ func (*streamHandler).handleConnection
 //@   props C01 C02 C05 C06 C15 C18
+//@   params h ctx outerConn connMetrics proxyMetrics
 //@   requires validStreamHandler(h) && ctx != nil && outerConn != nil && connMetrics != nil && proxyMetrics != nil
 //@   trace[C02,only-the-context-deadline-covers-writes] each transport.StreamConn.SetDeadline satisfies $recv == outerConn && $arg0 == evres("context.Context.Deadline", 0)
 //@   trace[C02,no-write-deadline-of-its-own] never transport.StreamConn.SetWriteDeadline
@@ -225,6 +242,7 @@ package service
 // handler's (validating) dialer, to the address read from the client.
 //@ func (*streamHandler).handleConnection$1
 //@   props C05 C15 C18
+//@   params ctx addr
 //@   requires h != nil && h.dialer != nil && proxyMetrics != nil
 //@   trace[C05,dials-through-handler-dialer] each transport.StreamDialer.DialStream satisfies $recv == h.dialer
 //@   trace[C15,target-counters-wired] each metrics.MeasureConn satisfies $arg1 == &proxyMetrics.ProxyTarget && $arg2 == &proxyMetrics.TargetProxy
@@ -232,6 +250,7 @@ package service
 
 //@ func proxyConnection
 //@   props C02 C05 C11 C15 C18
+//@   params l ctx dialer tgtAddr clientConn
 //@   requires l != nil && ctx != nil && dialer != nil && clientConn != nil
 //@   trace[C05,dials-only-through-given-dialer] each transport.StreamDialer.DialStream satisfies $recv == dialer
 //@   trace[C02,client-fin-only-after-target-eof] before io.Copy transport.StreamConn.CloseWrite
@@ -275,6 +294,7 @@ package service
 // Handle: one closed report with the real outcome, after everything else, before the close.
 //@ func (*streamHandler).Handle
 //@   props C06 C15 C18
+//@   params h ctx clientConn connMetrics
 //@   requires validStreamHandler(h) && ctx != nil && clientConn != nil
 //@   trace[C15,closed-reported-once] exactly 1 service.TCPConnMetrics.AddClosed
 //@   trace[C15,closed-after-handling] before service.(*streamHandler).handleConnection service.TCPConnMetrics.AddClosed
@@ -301,6 +321,7 @@ package service
 // it, closes no connection itself, and returns only after every handler has returned.
 //@ func StreamServe
 //@   props C11 C18
+//@   params accept handle
 //@   requires accept != nil && handle != nil
 //@   trace[C11,waits-for-handlers] exactly 1 wg.Wait
 //@   trace[C18,waits-for-handlers] exactly 1 wg.Wait
@@ -332,6 +353,7 @@ package service
 
 //@ func matchesIP
 //@   props C01 C18
+//@   params e clientIP
 //@   requires validElem(e)
 //@   ensures result == matches(e, clientIP)
 
@@ -353,6 +375,7 @@ package service
 // of matching entries among the first k (a definitional assumption, stated after taking the lock).
 //@ func (*cipherList).SnapshotForClientIP
 //@   props C01 C03 C18 C19
+//@   params cl clientIP
 //@   atomic
 //@   requires cl != nil
 //@   assume-at-lock uf_cntM_int(cl.list, clientIP, 0) == 0 && (forall k int :: 0 <= k && k < cl.list.n ==> \
@@ -373,6 +396,7 @@ package service
 
 //@ func (*cipherList).MarkUsedByClientIP
 //@   props C01 C18 C19
+//@   params cl e clientIP
 //@   atomic
 //@   requires cl != nil && validElem(e)
 //@   trace[C19,reorders-under-the-write-lock] exactly 1 lock:service.cipherList.mu
@@ -381,6 +405,7 @@ package service
 // Update installs a new key list (it takes ownership): every element must hold a valid entry.
 //@ func (*cipherList).Update
 //@   props C01 C18 C19
+//@   params cl src
 //@   atomic
 //@   requires cl != nil && keyListOK(src)
 
@@ -388,6 +413,7 @@ package service
 // size >= 20) get the marking generator keyed from this very secret; others the plain random one.
 //@ func MakeCipherEntry
 //@   props C08 C18
+//@   params id cryptoKey secret
 //@   requires cryptoKey != nil
 //@   ensures result.CryptoKey == cryptoKey && result.ID == id && result.SaltGenerator != nil
 //@   ensures[C08,marking-generator-for-long-salts] pure("shadowsocks.(*EncryptionKey).SaltSize", cryptoKey) >= 20 ==> typeis(result.SaltGenerator, "service.serverSaltGenerator")
@@ -401,16 +427,19 @@ package service
 
 //@ func (serverSaltGenerator).splitSalt
 //@   props C08 C18
+//@   params sg salt
 //@   ensures[C08,split-exact] result.2 == nil ==> len(salt) >= 4 && sameslice(result.0, salt[:len(salt)-4]) && sameslice(result.1, salt[len(salt)-4:])
 //@   ensures[C08,short-salt-rejected] len(salt) < 4 ==> result.2 != nil
 //@   ensures result.2 != nil ==> len(salt) < 4
 
 //@ func (serverSaltGenerator).getTag
 //@   props C08 C18
+//@   params sg prefix
 //@   ensures len(result) == 20
 
 //@ func (serverSaltGenerator).GetSalt
 //@   props C08 C18
+//@   params sg salt
 //@   trace[C08,random-prefix-only] each rand.Read satisfies sameslice($arg0, salt[:len(salt)-4])
 //@   trace[C08,tag-of-final-prefix] before rand.Read service.(serverSaltGenerator).getTag
 //@   trace[C08,tag-over-prefix] each service.(serverSaltGenerator).getTag satisfies sameslice($arg1, salt[:len(salt)-4])
@@ -420,6 +449,7 @@ package service
 
 //@ func (serverSaltGenerator).IsServerSalt
 //@   props C08 C18
+//@   params sg salt
 //@   ensures[C08,short-salt-not-server] len(salt) < 4 ==> result == false
 //@   trace[C08,tag-over-prefix] each service.(serverSaltGenerator).getTag satisfies sameslice($arg1, salt[:len(salt)-4])
 //@   trace[C08,compares-four-tag-bytes-with-mark] each bytes.Equal satisfies len($arg0) == 4 && $arg0.$arr == evres("service.(serverSaltGenerator).getTag", 0).$arr \
@@ -428,9 +458,11 @@ package service
 
 //@ func (randomServerSaltGenerator).IsServerSalt
 //@   props C08 C18
+//@   params arg0 salt
 //@   ensures result == false
 //@ func (randomServerSaltGenerator).GetSalt
 //@   props C08 C18
+//@   params arg0 salt
 //@   trace[C08,whole-salt-random] each rand.Read satisfies sameslice($arg0, salt)
 
 // ---------------------------------------------------------------------------
@@ -453,12 +485,14 @@ package service
 
 //@ func findAccessKeyUDP
 //@   props C03 C18
+//@   params clientIP dst src cipherList l
 //@   requires cipherList != nil && l != nil && dst != nil && dst.$arr != src.$arr
 //@   ensures result.3 == nil ==> result.2 != nil && len(result.0) >= 0
 //@   ensures result.3 == nil ==> result.0.$arr == dst.$arr
 
 //@ func NewPacketHandler
 //@   props C05 C18
+//@   params natTimeout cipherList m ssMetrics
 //@   ensures result != nil && as(result, "*service.packetHandler") != nil
 //@   ensures[C05,default-policy-installed] as(result, "*service.packetHandler").targetIPValidator == funcref("net.RequirePublicIP")
 
@@ -471,6 +505,7 @@ package service
 // address it returns; the payload is the part of the plaintext after the address header.
 //@ func (*packetHandler).validatePacket
 //@   props C03 C05 C18
+//@   params h textData
 //@   requires validPacketHandler(h)
 //@   ensures result.2 == nil ==> result.1 != nil
 //@   ensures[C03,payload-after-header] result.2 == nil ==> result.0.$arr == textData.$arr && len(result.0) <= len(textData) \
@@ -482,6 +517,7 @@ package service
 
 //@ func isDNS
 //@   props C14 C18
+//@   params addr
 //@   pure
 //@   requires addr != nil
 
@@ -490,6 +526,7 @@ package service
 // together with the socket's deadline. A non-DNS or second write disables fast close for good.
 //@ func (*natconn).onWrite
 //@   props C14 C18
+//@   params c addr
 //@   arith-trusted deadlines are far from the int64 range of nanoseconds
 //@   requires validNatconn(c) && addr != nil
 //@   ensures[C14,deadline-monotone] c.readDeadline >= old(c.readDeadline)
@@ -506,6 +543,7 @@ package service
 // was written, it went to port 53, and the reply comes from port 53.
 //@ func (*natconn).onRead
 //@   props C14 C18
+//@   params c addr
 //@   requires validNatconn(c) && addr != nil
 //@   ensures[C14,fast-close-fires-once] oncedone(&c.fastClose)
 //@   ensures c.readDeadline == old(c.readDeadline)
@@ -516,6 +554,7 @@ package service
 
 //@ func (*natconn).WriteTo
 //@   props C14 C18
+//@   params c buf dst
 //@   requires validNatconn(c) && dst != nil
 //@   ensures 0 <= result.0 && result.0 <= len(buf)
 //@   trace[C14,deadline-extended-on-every-write] exactly 1 service.(*natconn).onWrite
@@ -524,6 +563,7 @@ package service
 //@   trace[C03,sends-what-it-was-given] each net.PacketConn.WriteTo satisfies sameslice($arg0, buf) && $arg1 == dst && result.0 == $res0 && result.1 == $res1
 //@ func (*natconn).ReadFrom
 //@   props C14 C18
+//@   params c buf
 //@   requires validNatconn(c)
 //@   ensures 0 <= result.0 && result.0 <= len(buf)
 //@   ensures result.2 == nil ==> result.1 != nil
@@ -532,11 +572,13 @@ package service
 
 //@ func newNATmap
 //@   props C04 C18
+//@   params timeout sm l
 //@   ensures validNatmap(result) == (sm != nil && l != nil)
 
 // The table as a map view: Get reads it, set/del change exactly one key.
 //@ func (*natmap).Get
 //@   props C04 C18 C19
+//@   params m key
 //@   atomic
 //@   requires validNatmap(m)
 //@   ensures result != nil ==> validNatconn(result)
@@ -544,6 +586,7 @@ package service
 
 //@ func (*natmap).set
 //@   props C04 C18 C19
+//@   params m key pc cryptoKey connMetrics
 //@   atomic
 //@   requires validNatmap(m) && pc != nil && cryptoKey != nil && connMetrics != nil
 //@   ensures validNatconn(result) && result.cryptoKey == cryptoKey && result.PacketConn == pc && result.metrics == connMetrics
@@ -553,6 +596,7 @@ package service
 
 //@ func (*natmap).del
 //@   props C04 C18 C19
+//@   params m key
 //@   atomic
 //@   requires validNatmap(m)
 //@   ensures[C04,del-removes-key] !has(m.keyConn, key)
@@ -562,6 +606,7 @@ package service
 
 //@ func (*natmap).Add
 //@   props C04 C16 C18
+//@   params m clientAddr clientConn cryptoKey targetConn keyID
 //@   requires validNatmap(m) && clientAddr != nil && clientConn != nil && cryptoKey != nil && targetConn != nil
 //@   ensures validNatconn(result) && result.cryptoKey == cryptoKey
 //@   trace[C16,added-once] exactly 1 service.UDPMetrics.AddUDPNatEntry
@@ -586,6 +631,7 @@ package service
 
 //@ func (*natmap).Close
 //@   props C14 C18 C19
+//@   params m
 //@   requires validNatmap(m)
 //@   trace[C14,every-association-expired] loop 1 exactly 1 net.PacketConn.SetReadDeadline
 //@   trace[C14,expired-now] loop 1 each net.PacketConn.SetReadDeadline satisfies $arg0 == now
@@ -604,6 +650,7 @@ package service
 // carrying the wire size read, the bytes written to the target (0 if none) and the datagram's status.
 //@ func (*packetHandler).Handle
 //@   props C03 C14 C16 C18
+//@   params h clientConn
 //@   requires validPacketHandler(h) && clientConn != nil
 //@   trace[C14,table-closed-at-exit] exactly 1 service.(*natmap).Close
 //@   trace[C16,at-most-one-report] loop 1 atmost 1 service.UDPConnMetrics.AddPacketFromClient
@@ -651,6 +698,7 @@ package service
 
 //@ func timedCopy
 //@   props C03 C14 C16 C18
+//@   params clientAddr clientConn targetConn l
 //@   requires clientAddr != nil && clientConn != nil && validNatconn(targetConn) && l != nil
 //@   loop 1 invariant !expired && len(pkt) == serverUDPBufferSize && saltSize == pure("shadowsocks.(*EncryptionKey).SaltSize", targetConn.cryptoKey) && bodyStart == saltSize + maxAddrLen
 //@   trace[C16,one-report-per-reply] loop 1 exactly 1 service.UDPConnMetrics.AddPacketFromTarget
@@ -664,6 +712,7 @@ package service
 // replyAddr := ParseAddr(addrWithoutZone(raddr)), both deterministic functions of their argument.
 //@ func addrWithoutZone
 //@   props C03 C18
+//@   params addr
 //@   pure
 //@   requires addr != nil
 
@@ -736,23 +785,27 @@ package service
 
 //@ func (*virtualStreamListener).AcceptStream
 //@   props C12 C13 C18 C19
+//@   params sl
 //@   acquires-level 10
 //@   requires sl != nil && sl.closeCh != nil
 //@   ensures[C12,closed-handle-refuses] old(closed(sl.closeCh)) ==> result.1 != nil && result.0 == nil
 
 //@ func (*virtualStreamListener).Close
 //@   props C12 C13 C18 C19
+//@   params sl
 //@   acquires-level 10
 //@   requires sl != nil && sl.closeCh != nil
 //@   ensures[C12,closed-after-close] closed(sl.closeCh)
 
 //@ func (*virtualPacketConn).ReadFrom
 //@   props C12 C13 C18 C19
+//@   params pc p
 //@   requires pc != nil && pc.closeCh != nil && pc.readCh != nil && !closed(pc.readCh)
 //@   ensures[C12,closed-handle-refuses] old(closed(pc.closeCh)) ==> result.2 != nil && result.1 == nil && result.0 == 0
 
 //@ func (*virtualPacketConn).Close
 //@   props C12 C13 C18 C19
+//@   params pc
 //@   acquires-level 10
 //@   requires pc != nil && pc.closeCh != nil && !closed(pc.closeCh)
 //@   ensures[C12,closed-after-close] closed(pc.closeCh)
@@ -761,6 +814,7 @@ package service
 // function has not run): a failed Acquire leaves the count alone.
 //@ func (*multiStreamListener).Acquire
 //@   props C10 C11 C12 C13 C18 C19
+//@   params m
 //@   acquires-level 30
 //@   requires m != nil
 //@   ensures result.1 == nil ==> result.0 != nil
@@ -795,6 +849,7 @@ package service
 
 //@ func (*multiPacketListener).Acquire
 //@   props C10 C11 C12 C13 C18 C19
+//@   params m
 //@   acquires-level 30
 //@   requires m != nil
 //@   ensures result.1 == nil ==> result.0 != nil
@@ -831,9 +886,11 @@ package service
 
 //@ func NewMultiStreamListener
 //@   props C18
+//@   params addr onCloseFunc
 //@   ensures result != nil
 //@ func NewMultiPacketListener
 //@   props C18
+//@   params addr onCloseFunc
 //@   ensures result != nil
 
 //@ func MultiListener.Acquire
@@ -843,6 +900,7 @@ package service
 
 //@ func (*listenerManager).ListenStream
 //@   props C12 C13 C18 C19
+//@   params m addr
 //@   acquires-level 20
 //@   requires m != nil
 //@   ensures result.1 == nil ==> result.0 != nil
@@ -855,6 +913,7 @@ package service
 //@   trace[C12,forgets-its-own-address] each mapdelete satisfies $arg0 == m.streamListeners
 //@ func (*listenerManager).ListenPacket
 //@   props C12 C13 C18 C19
+//@   params m addr
 //@   acquires-level 20
 //@   requires m != nil
 //@   ensures result.1 == nil ==> result.0 != nil
@@ -877,14 +936,17 @@ package service
 //@   params s
 //@ func WithReplayCache
 //@   props C07 C18
+//@   params replayCache
 //@   ensures result != nil
 // the option stores exactly the cache it was given
 //@ func WithReplayCache$1
 //@   props C07 C18
+//@   params s
 //@   requires s != nil
 //@   ensures[C07,option-installs-cache] s.replayCache == replayCache
 //@ func NewShadowsocksService
 //@   props C07 C09 C18
+//@   params opts
 //@   trace[C07,authenticator-gets-service-cache] each service.NewShadowsocksStreamAuthenticator satisfies $arg1 == as(result.0, "*service.ssService").replayCache
 //@   trace[C09,handlers-use-service-keys] each service.NewShadowsocksStreamAuthenticator satisfies $arg0 == as(result.0, "*service.ssService").ciphers
 //@   trace[C09,packet-handler-uses-service-keys] each service.NewPacketHandler satisfies $arg1 == as(result.0, "*service.ssService").ciphers
@@ -895,9 +957,11 @@ package service
 //@   ensures result != nil
 //@ func (*ssService).HandleStream
 //@   props C15 C18
+//@   params s ctx conn
 //@   requires s != nil && s.sh != nil && conn != nil
 //@ func (*ssService).HandlePacket
 //@   props C18
+//@   params s conn
 //@   requires s != nil && s.ph != nil
 
 // ---------------------------------------------------------------------------
@@ -912,6 +976,7 @@ package service
 // validator's consent for the IP literal being connected to.
 //@ func makeValidatingTCPStreamDialer$1
 //@   props C05 C18
+//@   params network address c
 //@   requires targetIPValidator != nil
 //@   trace[C05,validator-consulted] exactly 1 service.makeValidatingTCPStreamDialer$1.targetIPValidator
 //@   trace[C05,verdict-returned] each service.makeValidatingTCPStreamDialer$1.targetIPValidator satisfies result == $res0
@@ -919,10 +984,12 @@ package service
 
 //@ func makeValidatingTCPStreamDialer
 //@   props C05 C18
+//@   params targetIPValidator
 //@   ensures result != nil
 
 //@ func NewStreamHandler
 //@   props C05 C18
+//@   params authenticate timeout
 //@   ensures result != nil && as(result, "*service.streamHandler") != nil
 //@   ensures[C05,default-dialer-installed] as(result, "*service.streamHandler").dialer == defaultDialer && as(result, "*service.streamHandler").authenticate == authenticate
 
